@@ -8,7 +8,8 @@
   differ from C99: `Modf(±Inf) = ±Inf, NaN`, `Frexp(±Inf) = ±Inf, 0`, `Frexp(NaN) = NaN, 0`).  The harness sends
   Go's own result for the same operands with every request and the engine insists that it equals this Model, so
   the trust is re-checked on every run.  The transcendental wrappers (exp, log, sin, pow, atan2 …) are not
-  computable here: for them the Model IS Go's function, i.e. the reference the harness sends (`none` below).
+  computable here: for them the Model IS Go's function, i.e. the reference the harness sends (`none` below) —
+  except `mathAtan2`, which corrects the sign of Go's result (`call2OfRef`).
 -/
 import GLua.Spec.MathIEEE
 
@@ -67,6 +68,24 @@ def checkInt (n : Bits) : Option Int :=
   match toIntTrunc n with
   | some k => if k.natAbs < 9223372036854775808 then some k else none
   | none => none
+
+/-- mathAtan2 (after fixes/C15-atan2-underflow-sign.diff):
+    `r := math.Atan2(y, x); if y < 0 && r > 0 { r = -r }`.
+    `math.Atan2` itself is not computable here: `goR` is Go's result for these operands (the reference the harness
+    sends with the request); the wrapper's comparison and negation are the IEEE operations. -/
+def mathAtan2 (y _x goR : Bits) : Bits :=
+  if lt y (zeroBits false) ∧ gt goR (zeroBits false) then negate goR else goR
+
+/-- mathAtan2 BEFORE the fix (`L.Push(LNumber(math.Atan2(y, x)))`): Go's result passed through — kept to state
+    what was wrong (Props.C15.atan2_before_fix_fails) -/
+def mathAtan2Old (_y _x goR : Bits) : Bits := goR
+
+/-- wrappers that post-process the result of a Go function which is not computable in Lean: the Model as a
+    function of the operands AND of Go's result `ref` for them -/
+def call2OfRef (fn : String) (x y : Bits) (ref : List Bits) : Option (List Bits) :=
+  match fn, ref with
+  | "atan2", [r] => some [mathAtan2 x y r]
+  | _, _ => none
 
 /-- one- and two-argument wrappers; `none` = not computable in Lean (Model = the Go reference of the request) -/
 def call1 (fn : String) (x : Bits) : Option (List Bits) :=
